@@ -45,6 +45,20 @@ Step(e) ==
          /\ Check(~Has(e, "exc"), "in_zone_must_not_raise")
          /\ (Has(e, "res") => Check(Consistent(e.res) /\ Same(e.res, Mk(e.inst, e.iv.wall, e.cal)) /\ e.res_zone = e.zone,
                                     "zoned_offset_is_rederived_from_zone_and_zone_calendar_retained"))
+    [] e.op = "zoned_ctor" ->
+         \* building a zoned value from (local, zone, offset): accepted exactly when the zone's offset at local - offset is that offset
+         LET iv == [start |-> e.iv.start, end |-> e.iv.end, name |-> "", wall |-> e.iv.wall, std |-> 0, sav |-> 0] IN
+         /\ Check(Contains(iv, e.cand) /\ e.cand = Sub3(e.loc, OfSeconds(e.off)), "machinery_interval_contains_instant")
+         /\ IF e.iv.wall = e.off
+            THEN /\ Check(~Has(e, "exc"), "zoned_from_local_and_the_zone_offset_must_not_raise")
+                 /\ (Has(e, "res") => Check(Consistent(e.res) /\ Same(e.res, Mk(e.cand, e.off, e.cal)) /\ e.res_zone = e.zone,
+                                            "zoned_from_local_keeps_local_offset_calendar_zone"))
+            ELSE Check(Has(e, "exc"), "zoned_from_local_with_an_offset_the_zone_does_not_have_must_raise")
+    [] e.op = "accessors" ->
+         /\ Check(~Has(e, "exc"), "accessors_must_not_raise")
+         /\ Check(e.acc = e.loc, "properties_read_the_local_date_time")
+         /\ (Has(e, "tod") => LET sod == e.v.loc[2] IN
+               Check(e.tod = <<sod \div 3600, (sod % 3600) \div 60, sod % 60>>, "properties_read_the_local_date_time"))
     [] e.op = "zoned_plus" ->
          LET iv == [start |-> e.iv.start, end |-> e.iv.end, name |-> "", wall |-> e.iv.wall, std |-> 0, sav |-> 0]
              ni == Add3(e.v.inst, e.d)
